@@ -33,6 +33,12 @@ class Ranges:
                 return (int(v), int(v))
             if isinstance(v, int):
                 return (v, v)
+            if op.get("def"):
+                # a named constant (`Header::WIRE_SIZE`, `PtpVersion::WIRE_OFFSET`): its evaluated value
+                cst = self.prog.consts.get(op["def"]) if self.prog is not None else None
+                cv = cst.get("v") if cst else None
+                if isinstance(cv, int) and not isinstance(cv, bool):
+                    return (cv, cv)
             return ty_range(self.body.ty(op["ty"])["s"])
         if k in ("copy", "move"):
             return self.place_range(op["p"], depth)
